@@ -30,7 +30,12 @@ class C05(Prop):
         N = rng.choice([1, 1, 2, 3]) if rng.random() < 0.2 else rng.randint(1, 60)
         chosen = [rng.randrange(nk) for _ in range(N)]
         picks = [rng.randrange(N) for _ in range(5 * T)]
-        return {"jdd": jdd, "sizes": sizes, "N": N, "chosen": chosen, "picks": picks}
+        if T >= 2 and rng.random() < 0.3:
+            sizes[rng.randrange(1, T)] = sizes[0]            # repeated motif sizes
+        c = {"jdd": jdd, "sizes": sizes, "N": N, "chosen": chosen, "picks": picks}
+        if rng.random() < 0.3:
+            c["warmup"] = rng.randint(1, 7)
+        return c
 
     def impl(self, case):
         import random
@@ -53,6 +58,11 @@ class C05(Prop):
             if not picks:
                 return 0
             return picks.pop(0)
+        if case.get("warmup"):
+            # an earlier sampling call on the same object must not influence this one
+            st = random.getstate()
+            obj.sample_jds_from_jdd(case["warmup"])
+            random.setstate(st)
         with patched(random, "choices", fake_choices), patched(random, "randrange", fake_randrange):
             out = obj.sample_jds_from_jdd(case["N"])
         obs = {"out": [list(x) for x in out], "types": sorted({type(x).__name__ for x in out}),
